@@ -157,7 +157,20 @@ func (s *Server) Serve(l net.Listener, initializedCh chan struct{}) error {
 		lastSession++
 		tempDelay = 0
 
+		// register the session under the lock Shutdown takes before it waits, and only if
+		// shutdown hasn't been signalled: otherwise Shutdown could return while a session is starting
+		s.mu.Lock()
+		select {
+		case <-s.doneChan:
+			s.mu.Unlock()
+			conn.Close()
+
+			return nil
+		default:
+		}
 		s.wg.Add(1)
+		s.mu.Unlock()
+
 		go s.serve(conn, fmt.Sprintf("%08x", lastSession))
 	}
 }
